@@ -1401,7 +1401,7 @@ class RecurrencePlot(Cached):
         #  Get current recurrence matrix
         R = self.recurrence_matrix()
         #  Get number of neighbors for each state vector
-        nR = R.sum(axis=0)
+        nR = to_cy(R.sum(axis=0), NODE)
 
         _twins_r(min_dist, N, R, nR, twins)
         return twins
